@@ -1,1 +1,470 @@
-(* C11 stub: to be written *)
+(* C11 -- model of the symbolic layer of epgpy/sequence.py.
+   * expression trees (Constant / Variable / Proxy / Expression(function, arguments));
+   * evaluation [geval], generic in the number type: instance R (theorems) and instance option Qc (executed);
+     the meaning of every `math` function is its GENERATED forward formula (Gen/SeqTables.v) over ten
+     python/numpy primitives;
+   * [derive] follows Expression.derive literally and reads the GENERATED derivative templates;
+   * substitution (Expression.map / __call__ of virtual operators), repeat();
+   * the finite check of the virtual-operator table against the generated __init__ signatures. *)
+From Coq Require Import List String ZArith QArith Qcanon Qabs Reals Bool Lia.
+From EPG Require Import SeqTables.
+Import ListNotations.
+Local Open Scope string_scope.
+
+(* ------------------------------------------------------------------ syntax *)
+Inductive prim := Padd | Psub | Pmul | Pdiv | Ppow | Pneg | Psign | Pabs | Plog | Pexp.
+Inductive fn := Fleft | Fright | Fsign | Fneg | Fabs | Fadd | Fsub | Fmul | Finv | Fdiv | Fpow | Flog | Fexp.
+
+Definition all_fns := [Fleft; Fright; Fsign; Fneg; Fabs; Fadd; Fsub; Fmul; Finv; Fdiv; Fpow; Flog; Fexp].
+
+Definition fn_name (f : fn) : string :=
+  match f with
+  | Fleft => "left" | Fright => "right" | Fsign => "sign" | Fneg => "neg" | Fabs => "abs"
+  | Fadd => "add" | Fsub => "sub" | Fmul => "mul" | Finv => "inv" | Fdiv => "div" | Fpow => "pow"
+  | Flog => "log" | Fexp => "exp"
+  end.
+
+Definition fn_eqb (f g : fn) : bool := String.eqb (fn_name f) (fn_name g).
+
+Definition prim_names : list (string * prim) :=
+  [("py.add", Padd); ("py.sub", Psub); ("py.mul", Pmul); ("py.truediv", Pdiv); ("py.pow", Ppow);
+   ("py.neg", Pneg); ("np.sign", Psign); ("np.abs", Pabs); ("np.log", Plog); ("np.exp", Pexp)].
+
+Fixpoint assoc {A} (k : string) (l : list (string * A)) : option A :=
+  match l with
+  | [] => None
+  | (k', a) :: l' => if String.eqb k k' then Some a else assoc k l'
+  end.
+
+Definition prim_of_name (s : string) : option prim := assoc s prim_names.
+Definition fn_of_name (s : string) : option fn := find (fun f => String.eqb (fn_name f) s) all_fns.
+
+(* forward formula of a python function over its parameters *)
+Inductive fexpr := FArg (i : nat) | FCst (q : Q) | FPrim (p : prim) (args : list fexpr).
+(* expression trees of sequence.py *)
+Inductive expr := Const (q : Q) | Var (x : string) | Proxy (n : nat) | App (f : fn) (args : list expr).
+
+Section all_opt.
+  Context {A B : Type} (g : A -> option B).
+  Fixpoint all_opt (l : list A) : option (list B) :=
+    match l with
+    | [] => Some []
+    | a :: l' => match g a, all_opt l' with Some x, Some y => Some (x :: y) | _, _ => None end
+    end.
+End all_opt.
+
+Fixpoint resolve_f (r : rexpr) : option fexpr :=
+  match r with
+  | RConst q => Some (FCst q)
+  | RArg i => Some (FArg i)
+  | RProxy _ => None
+  | RApp f args =>
+      match prim_of_name f,
+            (fix go (l : list rexpr) := match l with
+               | [] => Some []
+               | a :: l' => match resolve_f a, go l' with Some x, Some y => Some (x :: y) | _, _ => None end
+               end) args with
+      | Some p, Some l => Some (FPrim p l)
+      | _, _ => None
+      end
+  end.
+
+Fixpoint resolve_e (r : rexpr) : option expr :=
+  match r with
+  | RConst q => Some (Const q)
+  | RProxy n => Some (Proxy n)
+  | RArg _ => None
+  | RApp f args =>
+      match fn_of_name f,
+            (fix go (l : list rexpr) := match l with
+               | [] => Some []
+               | a :: l' => match resolve_e a, go l' with Some x, Some y => Some (x :: y) | _, _ => None end
+               end) args with
+      | Some g, Some l => Some (App g l)
+      | _, _ => None
+      end
+  end.
+
+(* ------------------------------------------------------------------ tables computed from Gen/SeqTables.v *)
+Definition find_math (name : string) : option math_entry :=
+  find (fun m => String.eqb (m_name m) name) math_table.
+
+Definition fn_entry (f : fn) : option (nat * fexpr * list (option expr)) :=
+  match find_math (fn_name f) with
+  | None => None
+  | Some m =>
+      match resolve_f (m_forward m) with
+      | None => None
+      | Some fw =>
+          match m_derivs m with
+          | None => Some (m_arity m, fw, [])         (* Function(...) without derivatives *)
+          | Some ds =>
+              match all_opt (fun d => match d with
+                                      | None => Some None
+                                      | Some r => option_map Some (resolve_e r) end) ds with
+              | Some l => Some (m_arity m, fw, l)
+              | None => None
+              end
+          end
+      end
+  end.
+
+(* every function of the source table is modelled and every modelled function resolves *)
+Definition tables_closed : bool :=
+  forallb (fun m => match fn_of_name (m_name m) with Some _ => true | None => false end) math_table
+  && forallb (fun f => match fn_entry f with Some _ => true | None => false end) all_fns
+  && (List.length math_table =? List.length all_fns)%nat.
+
+Definition fn_table : list (fn * (nat * fexpr * list (option expr))) :=
+  Eval vm_compute in
+    flat_map (fun f => match fn_entry f with Some e => [(f, e)] | None => [] end) all_fns.
+
+Definition fn_lookup (f : fn) : nat * fexpr * list (option expr) :=
+  match find (fun p => fn_eqb (fst p) f) fn_table with
+  | Some p => snd p
+  | None => (0%nat, FCst 0, [])
+  end.
+
+Definition arity (f : fn) : nat := fst (fst (fn_lookup f)).
+Definition fwd (f : fn) : fexpr := snd (fst (fn_lookup f)).
+Definition dtab (f : fn) (i : nat) : option expr :=
+  match nth_error (snd (fn_lookup f)) i with Some (Some t) => Some t | _ => None end.
+
+(* ------------------------------------------------------------------ generic evaluation *)
+Section Eval.
+  Context {K : Type} (ofQ : Q -> K) (ps : prim -> list K -> K).
+
+  Fixpoint feval (args : list K) (e : fexpr) : K :=
+    match e with
+    | FArg i => nth i args (ofQ 0)
+    | FCst q => ofQ q
+    | FPrim p l => ps p (map (feval args) l)
+    end.
+
+  (* px: values of the proxies (only derivative templates contain them) *)
+  Fixpoint geval (rho : string -> K) (px : nat -> K) (e : expr) : K :=
+    match e with
+    | Const q => ofQ q
+    | Var x => rho x
+    | Proxy n => px n
+    | App f args => feval (map (geval rho px) args) (fwd f)
+    end.
+End Eval.
+
+(* ---- instance R *)
+Local Open Scope R_scope.
+
+Definition sgn (x : R) : R := if Rlt_dec 0 x then 1 else if Rlt_dec x 0 then -1 else 0.
+
+Definition int_of (y : R) : option Z :=
+  if Req_EM_T y (IZR (Int_part y)) then Some (Int_part y) else None.
+
+(* python/numpy float power restricted to the real-valued cases: positive base, or integer exponent;
+   everything else (complex / nan in the implementation) is mapped to 0 and excluded by [wd] *)
+Definition powR (x y : R) : R :=
+  if Rlt_dec 0 x then Rpower x y
+  else match int_of y with Some n => powerRZ x n | None => 0 end.
+
+Definition primR (p : prim) (l : list R) : R :=
+  match p, l with
+  | Padd, [a; b] => a + b
+  | Psub, [a; b] => a - b
+  | Pmul, [a; b] => a * b
+  | Pdiv, [a; b] => a / b
+  | Ppow, [a; b] => powR a b
+  | Pneg, [a] => - a
+  | Psign, [a] => sgn a
+  | Pabs, [a] => Rabs a
+  | Plog, [a] => ln a
+  | Pexp, [a] => exp a
+  | _, _ => 0
+  end.
+
+Definition eval (rho : string -> R) (e : expr) : R := geval Q2R primR rho (fun _ => 0) e.
+Definition peval (rho : string -> R) (px : nat -> R) (e : expr) : R := geval Q2R primR rho px e.
+Local Close Scope R_scope.
+
+(* ---- instance option Qc (executed with vm_compute): None = not a rational computation / undefined *)
+Definition lift1 (g : Qc -> option Qc) (a : option Qc) : option Qc :=
+  match a with Some x => g x | None => None end.
+Definition lift2 (g : Qc -> Qc -> option Qc) (a b : option Qc) : option Qc :=
+  match a, b with Some x, Some y => g x y | _, _ => None end.
+
+Definition qc_is0 (a : Qc) : bool := Qc_eq_bool a (Q2Qc 0).
+Definition qc_sign (a : Qc) : Qc :=
+  match (this a ?= 0)%Q with Gt => Q2Qc 1 | Lt => Q2Qc (-1) | Eq => Q2Qc 0 end.
+Definition qc_abs (a : Qc) : Qc :=
+  match (this a ?= 0)%Q with Lt => Qcopp a | _ => a end.
+Definition qc_int (a : Qc) : option Z :=
+  match Qden (this a) with xH => Some (Qnum (this a)) | _ => None end.
+Definition qc_pow (a b : Qc) : option Qc :=
+  match qc_int b with
+  | None => None
+  | Some n =>
+      if (0 <=? n)%Z then Some (Qcpower a (Z.to_nat n))
+      else if qc_is0 a then None
+      else Some (Qcinv (Qcpower a (Z.to_nat (- n))))
+  end.
+
+Definition primQ (p : prim) (l : list (option Qc)) : option Qc :=
+  match p, l with
+  | Padd, [a; b] => lift2 (fun x y => Some (Qcplus x y)) a b
+  | Psub, [a; b] => lift2 (fun x y => Some (Qcminus x y)) a b
+  | Pmul, [a; b] => lift2 (fun x y => Some (Qcmult x y)) a b
+  | Pdiv, [a; b] => lift2 (fun x y => if qc_is0 y then None else Some (Qcdiv x y)) a b
+  | Ppow, [a; b] => lift2 qc_pow a b
+  | Pneg, [a] => lift1 (fun x => Some (Qcopp x)) a
+  | Psign, [a] => lift1 (fun x => Some (qc_sign x)) a
+  | Pabs, [a] => lift1 (fun x => Some (qc_abs x)) a
+  | _, _ => None
+  end.
+
+Definition evalQ (rho : string -> option Qc) (e : expr) : option Qc :=
+  geval (fun q => Some (Q2Qc q)) primQ rho (fun _ => None) e.
+
+(* ------------------------------------------------------------------ variables, proxies, substitution *)
+Fixpoint vars (e : expr) : list string :=
+  match e with
+  | Var x => [x]
+  | App _ args => flat_map vars args
+  | _ => []
+  end.
+Definition has_var (v : string) (e : expr) : bool := existsb (String.eqb v) (vars e).
+Definition is_var (e : expr) : bool := match e with Var _ => true | _ => false end.
+
+Fixpoint proxies_raw (e : expr) : list nat :=
+  match e with
+  | Proxy n => [n]
+  | App _ args => flat_map proxies_raw args
+  | _ => []
+  end.
+Fixpoint insert_nat (n : nat) (l : list nat) : list nat :=
+  match l with
+  | [] => [n]
+  | m :: l' => if (n <? m)%nat then n :: l else if (n =? m)%nat then l else m :: insert_nat n l'
+  end.
+(* Expression.proxies: the distinct proxies of the tree sorted by position *)
+Definition proxies (e : expr) : list nat := fold_right insert_nat [] (proxies_raw e).
+
+Fixpoint assoc_nat {A} (k : nat) (l : list (nat * A)) : option A :=
+  match l with
+  | [] => None
+  | (k', a) :: l' => if (k =? k')%nat then Some a else assoc_nat k l'
+  end.
+
+(* partial.map(dict(zip(partial.proxies, arguments))): simultaneous, unmapped proxies stay *)
+Fixpoint subst_proxies (m : list (nat * expr)) (t : expr) : expr :=
+  match t with
+  | Proxy n => match assoc_nat n m with Some a => a | None => t end
+  | App f args => App f (map (subst_proxies m) args)
+  | _ => t
+  end.
+
+(* Expression.map(mapping): simultaneous substitution of variables (values already passed
+   through to_expression: str -> Var, Expression -> itself, number -> Const) *)
+Fixpoint subst (m : list (string * expr)) (e : expr) : expr :=
+  match e with
+  | Var x => match assoc x m with Some a => a | None => e end
+  | App f args => App f (map (subst m) args)
+  | _ => e
+  end.
+
+(* ------------------------------------------------------------------ Expression.derive *)
+(* self.function.derive(i) with its proxies solved by the arguments *)
+Definition partial (f : fn) (args : list expr) (i : nat) : expr :=
+  match dtab f i with
+  | Some t => subst_proxies (combine (proxies t) args) t
+  | None => Const 0        (* the implementation raises ValueError; excluded by [wd] *)
+  end.
+
+(*  if not isinstance(arg, Variable): partial = arg.derive(variable) * partial  *)
+Definition term (f : fn) (args : list expr) (i : nat) (a da : expr) : expr :=
+  if is_var a then partial f args i else App Fmul [da; partial f args i].
+
+(*  d_expr = Constant(0); for i, arg: if variable in arg.variables: d_expr += <term>  *)
+Fixpoint chain_sum (v : string) (f : fn) (args : list expr) (i : nat) (l dl : list expr) (acc : expr) : expr :=
+  match l, dl with
+  | a :: l', da :: dl' =>
+      chain_sum v f args (S i) l' dl' (if has_var v a then App Fadd [acc; term f args i a da] else acc)
+  | _, _ => acc
+  end.
+
+Fixpoint derive (v : string) (e : expr) : expr :=
+  match e with
+  | Const _ => Const 0
+  | Var x => if String.eqb x v then Const 1 else Const 0
+  | Proxy _ => Const 0      (* the implementation raises NotImplementedError; excluded by [wd] *)
+  | App f args => chain_sum v f args 0 args (map (derive v) args) (Const 0)
+  end.
+
+(* ------------------------------------------------------------------ repeat(ops, **mapping) *)
+(* an operator is represented by its argument expressions; one mapping per repetition
+   (the n-th elements of list values / "name_{}".format(n+1) / constants, prepared by the caller) *)
+Definition repeat_ops (ops : list (list expr)) (maps : list (list (string * expr))) : list (list (list expr)) :=
+  map (fun m => map (map (subst m)) ops) maps.
+
+(* ------------------------------------------------------------------ virtual operator table *)
+Definition mem (s : string) (l : list string) : bool := existsb (String.eqb s) l.
+
+Fixpoint prefixb (p l : list string) : bool :=
+  match p, l with
+  | [], _ => true
+  | a :: p', b :: l' => String.eqb a b && prefixb p' l'
+  | _ :: _, [] => false
+  end.
+
+Definition find_class (c : string) : option class_entry :=
+  find (fun e => String.eqb (c_name e) c) class_table.
+
+(* the __init__ a class uses: its own, else the one of its first base (single-inheritance chains only:
+   Spoiler / Reset / EmptyOperator -> Operator) *)
+Fixpoint init_of (fuel : nat) (c : string) : option init_sig :=
+  match fuel with
+  | O => None
+  | S k =>
+      match find_class c with
+      | None => None
+      | Some e =>
+          match c_init e with
+          | Some i => Some i
+          | None => match c_bases e with b :: _ => init_of k b | [] => None end
+          end
+      end
+  end.
+
+(* keyword names a constructor accepts, following **kwargs to the base classes *)
+Fixpoint accepts (fuel : nat) (c : string) (o : string) : bool :=
+  match fuel with
+  | O => false
+  | S k =>
+      match find_class c with
+      | None => false
+      | Some e =>
+          match c_init e with
+          | Some i => mem o (i_pos i) || mem o (i_kwonly i)
+                      || (i_varkw i && existsb (fun b => accepts k b o) (c_bases e))
+          | None => existsb (fun b => accepts k b o) (c_bases e)
+          end
+      end
+  end.
+
+Definition FUEL := 8%nat.
+
+(* documented aliases: virtual name -> concrete class name when they differ by design *)
+Definition class_alias : list (string * string) := [("Null", "EmptyOperator")].
+Definition expected_class (v : string) : string :=
+  match assoc v class_alias with Some c => c | None => v end.
+
+(* the concrete class is the class the virtual operator is named after *)
+Definition vop_class_ok (v : vop_entry) : bool :=
+  String.eqb (v_class v) (expected_class (v_name v))
+  && match find_class (v_class v) with Some _ => true | None => false end.
+
+(* POSITIONALS are the leading positional parameters of the constructor, in signature order
+   (build() passes them as *args); KEYWORDS are further named parameters *)
+Definition vop_pos_ok (v : vop_entry) : bool :=
+  match init_of FUEL (v_class v) with
+  | Some i => prefixb (v_pos v) (i_pos i)
+  | None => false
+  end.
+Definition vop_kw_ok (v : vop_entry) : bool :=
+  match init_of FUEL (v_class v) with
+  | Some i => forallb (fun k => (mem k (skipn (List.length (v_pos v)) (i_pos i)) || mem k (i_kwonly i))
+                                && negb (mem k (v_pos v))) (v_kw v)
+  | None => false
+  end.
+Definition vop_binding_ok (v : vop_entry) : bool := vop_class_ok v && vop_pos_ok v && vop_kw_ok v.
+
+(* OPTIONS are forwarded as keyword arguments: each must be accepted by the constructor
+   ("<Ellipsis>" = any option, needs **kwargs; anything else that is not a name is wrong) *)
+Definition vop_opt_ok (v : vop_entry) : bool :=
+  forallb (fun o => if String.eqb o "<Ellipsis>"
+                    then match init_of FUEL (v_class v) with Some i => i_varkw i | None => false end
+                    else accepts FUEL (v_class v) o) (v_opt v).
+
+(* verdicts computed from the generated tables *)
+Definition vop_bad : list string :=
+  Eval vm_compute in map v_name (filter (fun v => negb (vop_binding_ok v)) vop_table).
+Definition vop_bad_options : list string :=
+  Eval vm_compute in map v_name (filter (fun v => negb (vop_opt_ok v)) vop_table).
+
+(* templates: the k-th proxy present must be Proxy k (otherwise zip(partial.proxies, arguments)
+   binds a proxy to the wrong argument) *)
+Definition proxies_ok : bool :=
+  forallb (fun f => forallb (fun d => match d with
+                                      | Some t => forallb (fun p => (fst p =? S (snd p))%nat)
+                                                    (combine (proxies t) (seq 0 (arity f)))
+                                                  && (List.length (proxies t) <=? arity f)%nat
+                                      | None => true end) (snd (fn_lookup f))) all_fns.
+
+(* ------------------------------------------------------------------ well-definedness (used by the theorems) *)
+Local Open Scope R_scope.
+Definition upd (rho : string -> R) (v : string) (t : R) : string -> R :=
+  fun y => if String.eqb y v then t else rho y.
+
+(* real-analysis side conditions of one node: values of the arguments, and which arguments contain
+   the differentiation variable *)
+Definition fn_dom (f : fn) (vals : list R) (varies : list bool) : Prop :=
+  match f, vals, varies with
+  | Finv, [a], _ => a <> 0
+  | Fdiv, [_; b], _ => b <> 0
+  | Flog, [a], _ => 0 < a
+  | Fabs, [a], [va] => va = true -> a <> 0
+  | Fpow, [a; b], [va; vb] =>
+      0 < a \/ (vb = false /\ exists n : Z, b = IZR n /\ (va = true -> a <> 0 \/ (1 <= n)%Z))
+  | _, _, _ => True
+  end.
+
+(* Function.derive(i) raises when the table has no i-th derivative *)
+Definition derivs_defined (f : fn) (varies : list bool) : Prop :=
+  forall i, nth i varies false = true -> dtab f i <> None.
+
+Fixpoint wd (v : string) (rho : string -> R) (e : expr) : Prop :=
+  match e with
+  | Const _ | Var _ => True
+  | Proxy _ => False
+  | App f args =>
+      List.length args = arity f
+      /\ (fix all (l : list expr) : Prop := match l with [] => True | a :: l' => wd v rho a /\ all l' end) args
+      /\ derivs_defined f (map (has_var v) args)
+      /\ fn_dom f (map (eval rho) args) (map (has_var v) args)
+  end.
+
+(* ------------------------------------------------------------------ statement of the table theorem *)
+Definition set_nth (i : nat) (u : R) (l : list R) : list R := firstn i l ++ u :: skipn (S i) l.
+
+(* domain of the i-th derivative template of f at the argument values *)
+Definition entry_dom (f : fn) (i : nat) (args : list R) : Prop :=
+  match f, args with
+  | Finv, [a] => a <> 0
+  | Fdiv, [_; b] => b <> 0
+  | Flog, [a] => 0 < a
+  | Fabs, [a] => a <> 0
+  | Fpow, [a; b] =>
+      match i with
+      | O => 0 < a \/ exists n : Z, b = IZR n /\ (a <> 0 \/ (1 <= n)%Z)   (* p2 * p1 ** (p2 + -1) *)
+      | _ => 0 < a                                                        (* log(p1) * p1 ** p2 *)
+      end
+  | _, _ => True
+  end.
+
+(* the semantic function of a table entry, and the value of a template with Proxy k = k-th argument *)
+Definition fn_sem (f : fn) (args : list R) : R := feval Q2R primR args (fwd f).
+Definition template_val (t : expr) (args : list R) : R :=
+  peval (fun _ => 0) (fun n => nth (pred n) args 0) t.
+
+(* ------------------------------------------------------------------ interface of the correspondence check *)
+Definition renv (l : list (string * Q)) : string -> R :=
+  fun s => match assoc s l with Some q => Q2R q | None => 0 end.
+Definition qenv (l : list (string * Q)) : string -> option Qc :=
+  fun s => option_map Q2Qc (assoc s l).
+
+(* model value (exact rational, or None = undefined) against the observed binary64 value (exact
+   rational, or None = the implementation raised ZeroDivisionError / FloatingPointError):
+   |model - obs| <= tol * (1 + |model|), tol = 0 for dyadic-exact cases *)
+Definition okq (m : option Qc) (obs : option Q) (tol : Q) : bool :=
+  match m, obs with
+  | Some a, Some b => Qle_bool (Qabs (this a - b)) (tol * (1 + Qabs (this a)))
+  | None, None => true
+  | _, _ => false
+  end.
